@@ -745,11 +745,22 @@ def matrix_case(ctx, sf, rp):
     try:
         if kind == "GaussianTransform":
             return compare_to_reference(ctx, sf, spec, backend, 2.0, rp, rp["sig"], rp["sig"])
-        st = dec02.run_spec(sf, spec, backend)
+        if rp.get("mesh"):          # decompose with an explicit mesh and run the emitted commands
+            sf.hbar = 2.0
+            prog0 = dec02.build_prog(spec)
+            cmd = prog0.circuit[-1]
+            kids = cmd.op.decompose(cmd.reg, mesh=rp["mesh"])
+            prog = sf.Program(spec["n"])
+            with prog.context as q:
+                for kcmd in kids:
+                    regs_ = [q[r.ind] for r in kcmd.reg]
+                    kcmd.op | (regs_ if len(regs_) > 1 else regs_[0])
+            st = sf.Engine(backend).run(prog).state
+        else:
+            st = dec02.run_spec(sf, spec, backend)
         a, N, M = sim.moments_gaussian(st, 2.0)
     except Exception as e:  # noqa: BLE001
-        sig = rp["sig"] if "two-or-more-unsqueezed" in rp["sig"] else f"raises:{kind}:{type(e).__name__}"
-        ctx.fail(sig, f"{kind} raised {type(e).__name__}: {e}", rp)
+        ctx.fail(f"raises:{kind}:{type(e).__name__}", f"{kind} raised {type(e).__name__}: {e}", rp)
         return
     ctx.oracle_cases += 1
     n = spec["n"]
@@ -757,15 +768,153 @@ def matrix_case(ctx, sf, rp):
     regs = spec["ops"][-1]["regs"]
     Afull = np.zeros((n, n), dtype=complex)
     Afull[np.ix_(regs, regs)] = A
+    # own formula, independent of decompositions.py / thewalrus: for the pure zero-mean Gaussian state with A-matrix B,
+    # <a_i a_j> = [B (1 - B^* B)^-1]_ij and 1 + N^T = (1 - B B^*)^-1, hence B = (1 + N^T)^-1 M
     Bst = np.linalg.solve(np.identity(n) + N.T, M)
-    # documented: pure zero-mean state whose A-matrix is c * A (c > 0) with the requested mean photon number
     nz = np.abs(Afull) > 1e-9
-    c = np.real(np.vdot(Afull[nz], Bst[nz]) / np.vdot(Afull[nz], Afull[nz])) if nz.any() else 0.0
-    err = float(np.max(np.abs(Bst - c * Afull)))
+    c = complex(np.vdot(Afull[nz], Bst[nz]) / np.vdot(Afull[nz], Afull[nz])) if nz.any() else 0.0
+    D = np.abs(Bst - c.real * Afull)
+    err = float(np.max(D))
     nph = float(np.real(np.trace(N)))
-    if err > 1e-7 or c <= 0 or np.max(np.abs(a)) > 1e-9 or abs(nph - rp["mean"] * len(regs)) > 1e-6 * max(1, nph):
-        ctx.fail(rp["sig"], f"{kind} on {regs}: state A-matrix is not a positive multiple of the input (error {err:.3g}, "
-                            f"c = {c:.3g}) or mean photon number {nph:.6g} != {rp['mean'] * len(regs):.6g}", rp)
+    opts = {k_: v for k_, v in spec["ops"][-1].get("kw", {}).items()}
+    if err > 1e-7 or c.real <= 0 or abs(c.imag) > 1e-7 or np.max(np.abs(a)) > 1e-9:
+        i, j = np.unravel_index(int(np.argmax(D)), D.shape)
+        ctx.fail(rp["sig"], f"{kind}{opts} on {regs}{' mesh=' + rp['mesh'] if rp.get('mesh') else ''}: the A-matrix of the prepared state "
+                            f"is not a positive multiple of the requested matrix (c = {c:.4g}; worst entry ({i},{j}): state "
+                            f"{Bst[i, j]:.4g} vs c*A = {c.real * Afull[i, j]:.4g})", rp)
+    elif abs(nph - rp["mean"] * len(regs)) > 1e-6 * max(1, nph):
+        ctx.fail(rp["sig"] + ":mean-photon-number",
+                 f"{kind}{opts} on {regs}: the prepared state has (1/N) sum <n_i> = {nph / len(regs):.6g}, requested "
+                 f"mean_photon_per_mode = {rp['mean']:.6g}", rp)
+
+
+# ---- structured symmetric matrices for the graph embeddings
+
+GRAPH_CLASSES = ["adjacency", "weighted", "self_loops", "diag_real_unsorted", "diag_complex", "diag_repeated", "diag_mixed",
+                 "block_diag", "block_diag_complex", "perm_like", "complex_generic", "rank_deficient", "rank_deficient_complex"]
+
+
+def graph_matrix(rng, rs, k, cls):
+    """symmetric k x k matrix of a named structured class"""
+    def sym(M):
+        return (M + M.T) / 2
+    if cls == "adjacency":
+        A = np.triu(rs.integers(0, 2, (k, k)).astype(float), 1)
+        A = A + A.T
+        if not A.any():
+            A[0, -1] = A[-1, 0] = 1.0
+        return A
+    if cls == "weighted":
+        return sym(np.round(rs.uniform(-1, 1, (k, k)), 2)) * (1 - np.identity(k))  + 0.0 if k > 1 else np.array([[0.7]])
+    if cls == "self_loops":
+        A = graph_matrix(rng, rs, k, "adjacency")
+        return A + np.diag(np.round(rs.uniform(0.2, 1.5, k), 2) * rs.choice([1.0, -1.0, 0.0], k))
+    mod = np.round(rs.uniform(0.2, 1.0, k), 2)          # unsorted moduli
+    if cls == "diag_real_unsorted":
+        return np.diag(mod * rs.choice([1.0, -1.0], k))
+    if cls == "diag_complex":
+        return np.diag(mod * np.exp(1j * rs.choice([0.0, np.pi / 2, np.pi, -np.pi / 2, 0.7, 2.1], k)))
+    if cls == "diag_repeated":
+        mod[:] = mod[0]
+        if k > 2:
+            mod[-1] = 0.3
+        return np.diag(mod * np.exp(1j * rs.choice([0.0, np.pi / 2, np.pi, 1.1], k)))
+    if cls == "diag_mixed":                                # the seeded example family: diag(0.3, 0.8i, -0.5)
+        ph = np.array([1, 1j, -1, -1j, np.exp(0.4j)])[rs.permutation(5)[:k] % 5] if k <= 5 else np.ones(k)
+        return np.diag(np.sort(mod) * ph)                  # increasing moduli: never the sorted-by-decreasing order
+    if cls in ("block_diag", "block_diag_complex"):
+        A = np.zeros((k, k), dtype=complex if cls.endswith("complex") else float)
+        j = 0
+        while j < k:
+            b = min(int(rs.integers(1, 3)), k - j)
+            blk = rs.standard_normal((b, b))
+            if cls.endswith("complex"):
+                blk = blk + 1j * rs.standard_normal((b, b))
+            A[j:j + b, j:j + b] = np.round(sym(blk), 2)
+            j += b
+        return A
+    if cls == "perm_like":                                 # weighted involution: a perfect matching plus fixed points
+        A = np.zeros((k, k))
+        idx = list(rs.permutation(k))
+        while len(idx) >= 2:
+            a, b = idx.pop(), idx.pop()
+            A[a, b] = A[b, a] = round(float(rs.uniform(0.3, 1.0)), 2)
+        if idx and rng.random() < 0.5:
+            A[idx[0], idx[0]] = 0.6
+        return A
+    if cls == "complex_generic":
+        return np.round(sym(rs.standard_normal((k, k)) + 1j * rs.standard_normal((k, k))), 2)
+    if cls in ("rank_deficient", "rank_deficient_complex"):
+        v = rs.standard_normal(k) + (1j * rs.standard_normal(k) if cls.endswith("complex") else 0)
+        A = np.outer(v, v)
+        if k > 2 and rng.random() < 0.5:
+            w = rs.standard_normal(k)
+            A = A + np.outer(w, w) * 0.5
+        return A
+    raise KeyError(cls)
+
+
+def oracle_graph_embed(ctx, sf):
+    """GraphEmbed / BipartiteGraphEmbed on structured matrices x every option combination: the prepared state's A-matrix
+    is a positive multiple of the requested (traceless, if asked) matrix entry by entry and has the requested photon number"""
+    rng, rs = ctx.rng, ctx.nprng(11)
+    it = 0
+    for cls in GRAPH_CLASSES:
+        for traceless in (False, True):
+            for rep in range(ctx.n(3, 12)):
+                it += 1
+                k = rng.choice([2, 3, 3, 4])
+                n = k + rng.choice([0, 1, 8])
+                regs = rng.sample(range(n), k)
+                A = graph_matrix(rng, rs, k, cls)
+                mean = [0.2, 0.5, 1.0][it % 3]
+                target = A - np.trace(A) * np.identity(k) / k if traceless else A
+                if np.max(np.abs(target)) < 1e-6:
+                    continue
+                if np.allclose(A, np.identity(k)):
+                    continue            # known finding (identity shortcut)
+                op = dict(cls="GraphEmbed", regs=regs, pars=[dec02.enc(A)], kw=dict(mean_photon_per_mode=mean, make_traceless=traceless))
+                mesh = [None, None, "rectangular_symmetric", "triangular", "rectangular_compact", "sun_compact"][it % 6]
+                if mesh == "sun_compact" and k < 3:
+                    mesh = "rectangular_phase_end"
+                rp = dict(kind="matrix", mkind="GraphEmbed", spec=dict(n=n, ops=[op]), A=dec02.enc(target), mean=mean, mesh=mesh,
+                          sig=f"graph-embed:GraphEmbed:{cls}:traceless={traceless}")
+                ctx.count(f"graph-embed:GraphEmbed:{cls}:traceless={traceless}", dict(A=str(np.round(A, 4).tolist()), r=regs, m=mean, t=traceless, me=mesh),
+                          True, sample=dict(cls=cls, A=str(np.round(A, 3).tolist()), make_traceless=traceless, mean=mean, targets=regs, mesh=mesh))
+                matrix_case(ctx, sf, rp)
+    bcls = ["generic", "complex", "symmetric", "symmetric_complex", "diag_real_unsorted", "diag_complex", "diag_mixed", "identity",
+            "rank_deficient", "perm_like"]
+    for cls in bcls:
+        for edges in (True, False):
+            for rep in range(ctx.n(2, 8)):
+                it += 1
+                N_ = rng.choice([1, 2, 2, 3])
+                if cls == "generic":
+                    B = np.round(rs.uniform(-1, 1, (N_, N_)), 2)
+                elif cls == "complex":
+                    B = np.round(rs.standard_normal((N_, N_)) + 1j * rs.standard_normal((N_, N_)), 2)
+                elif cls == "symmetric":
+                    B = graph_matrix(rng, rs, N_, "self_loops")
+                elif cls == "symmetric_complex":
+                    B = graph_matrix(rng, rs, N_, "complex_generic")
+                elif cls == "identity":
+                    B = np.identity(N_)
+                else:
+                    B = graph_matrix(rng, rs, N_, cls)
+                if np.max(np.abs(B)) < 1e-6:
+                    continue
+                A = np.block([[np.zeros_like(B), B], [B.T, np.zeros_like(B)]])
+                n = 2 * N_ + rng.choice([0, 1, 7])
+                regs = rng.sample(range(n), 2 * N_)
+                mean = [0.2, 0.5, 1.0][it % 3]
+                kw = dict(mean_photon_per_mode=mean, edges=edges, drop_identity=bool(it % 2))
+                op = dict(cls="BipartiteGraphEmbed", regs=regs, pars=[dec02.enc(B if edges else A)], kw=kw)
+                mesh = [None, "rectangular_symmetric", None, "triangular_compact"][it % 4]
+                rp = dict(kind="matrix", mkind="BipartiteGraphEmbed", spec=dict(n=n, ops=[op]), A=dec02.enc(A), mean=mean, mesh=mesh,
+                          sig=f"graph-embed:BipartiteGraphEmbed:{cls}:edges={edges}")
+                ctx.count(f"graph-embed:BipartiteGraphEmbed:{cls}:edges={edges}", dict(B=str(np.round(B, 4).tolist()), r=regs, m=mean, k=str(kw), me=mesh),
+                          True, sample=dict(cls=cls, B=str(np.round(B, 3).tolist()), kw=kw, targets=regs, mesh=mesh))
+                matrix_case(ctx, sf, rp)
 
 
 def oracle_matrix_ops(ctx, sf):
@@ -1547,6 +1696,7 @@ def run(ctx, sf):
     oracle_interferometer(ctx, sf)
     oracle_gaussian_prep(ctx, sf)
     oracle_matrix_ops(ctx, sf)
+    oracle_graph_embed(ctx, sf)
     oracle_history(ctx, sf)
     oracle_option_history(ctx, sf)
     oracle_holes_sharing(ctx, sf)
